@@ -249,13 +249,18 @@ Definition c04_ok (c : case) : bool :=
              (length (i_summaries c)).
 
 (* ------------------------------------------------------------------ the checks *)
-Definition base_code (c : case) : nat := bit (negb (agree c)) 1 + bit (negb (wf_case c)) 4.
+(* with an injected subprocess fault the run model does not apply (it has no dying children): only the predicate is evaluated *)
+Definition base_code (c : case) : nat := bit (negb (i_injected c) && negb (agree c)) 1 + bit (negb (wf_case c)) 4.
 Definition check_C01 (c : case) : nat := base_code c + bit (negb (c01_ok (w c) (i_parent c) (i_children c))) 2.
 Definition check_C05 (c : case) : nat := base_code c + bit (negb (c05_ok (w c) (i_parent c) (i_children c))) 2.
 Definition check_C16 (c : case) : nat := base_code c + bit (negb (c16_ok c)) 2.
+(* with an injected subprocess fault the lists must say so: an error entry for the layer's subprocess, verdict failed *)
+Definition c12_injected_ok (c : case) : bool :=
+  i_failed c && existsb (fun nm => match nm with NSubprocess _ => true | _ => false end) (i_err c) && negb (i_aborted c).
 Definition check_C12 (c : case) : nat :=
+  if i_injected c then bit (negb (c12_injected_ok c)) 2 else
   base_code c + bit (negb (c12_ok c)) 2 + bit (c12_skip_finding c) 8 + bit (negb (c12_hyps c)) 16.
-Definition check_C02 (c : case) : nat := base_code c + bit (negb (c02_ok c false)) 2.
+Definition check_C02 (c : case) : nat := base_code c + bit (negb (c02_ok c (i_injected c))) 2.
 Definition check_C02_injected (c : case) : nat := bit (negb (c02_ok c true)) 2.
 Definition check_C03 (c : case) : nat := base_code c + bit (negb (c03_ok c)) 2.
 Definition check_C04 (c : case) : nat := base_code c + bit (negb (c04_ok c)) 2.
